@@ -2,7 +2,7 @@
 
 Deciding step: exhaustive enumeration of (flavour, class, operand valuation) over the
 complete per-field lattice and all field pairs over reduced domains, plus all
-sequences of length <= 2 (quick) / 3 (thorough) over one representative per operand
+sequences of length <= 3 over one representative per operand
 shape; each printed with str() and parsed by the real text parser with that flavour.
 """
 from __future__ import annotations
@@ -17,7 +17,7 @@ from props.c01 import representatives
 LEVEL = "exploration"
 RULE = ("flavour x class x (every value of each operand field against two backgrounds + all field pairs over reduced "
         "domains): parse(str(instr)) must give one instruction of the same class with equal operands; sequences of length "
-        "<=2/3 over one representative per shape: text -> subroutine -> bytes -> decoded -> printed -> parsed is stable; per class: print / change operands in place / print again, "
+        "<=3 over one representative per shape: text -> subroutine -> bytes -> decoded -> printed -> parsed is stable; per class: print / change operands in place / print again, "
         "and parse twice / change the first result in place / parse again; "
         "distinct = distinct (flavour, mnemonic, leaves); non-trivial = some operand field non-zero")
 ASSUMPTIONS = ["operands in range; text is produced by str(instruction) exactly as the repository prints it"]
@@ -217,7 +217,7 @@ def _dispatch(shard):
 
 def run(ctx):
     shards: List[Any] = [("coexist",)]
-    maxlen = 2 if ctx.tier == "quick" else 3
+    maxlen = 3
     for flav in FLAVOURS:
         for c in codec.live_classes(flav):
             shards.append(("instr", flav, c.mnemonic))
